@@ -153,9 +153,12 @@ def gen_body(r, indent, names, depth=0, ret=None):
             out.append("%sprint(%r)" % (pre, irgen.rand_doc(r, 2, stop=False)))
         elif k == "nested":
             out.append(gen_function(r, indent, names, depth + 1))
+        if r.random() < 0.08:
+            # a blank line inside the body: empty, or still carrying indentation (spaces / a tab) as editors leave them
+            out.append(r.choice(("", pre, pre + TAB, pre[:-2] if len(pre) > 2 else " ", pre + "\t")))
     if ret:
         out.append("%sreturn %s" % (pre, {"int": "1", "str": "'r'", "bool": "True", "None": "None"}.get(ret, "None")))
-    elif all(l.lstrip().startswith("#") for l in out):
+    elif all(l.lstrip().startswith("#") or not l.strip() for l in out):
         out.append("%spass" % pre)
     return "\n".join(out)
 
